@@ -13,8 +13,9 @@
 # for each PID of the family and each payload over a small tagged byte alphabet up to a maximum length, the trailers
 #   correct CRC16 (low byte first) | low byte with a flipped bit | high byte with a flipped bit | bytes swapped,
 # so truncations give "payload only", "payload + first CRC byte", packets with 0 and 1 byte after the PID, etc.
-# PIDs: DATA0, DATA1, DATA2, MDATA, DATA0 with a corrupted check nibble, ACK, IN.  cfg["fams"] names the family used
-# for the 1st, 2nd (3rd) packet of a run.
+# PIDs: DATA0, DATA1, DATA2, MDATA, DATA0 with a corrupted check nibble, ACK, IN.  Every family also contains, for each of
+# its non-data / corrupted PIDs, long packets "PID + 0..2 filler bytes + an embedded complete data packet" (good and bad
+# CRC), which must be ignored as a whole.  cfg["fams"] names the family used for the 1st, 2nd (3rd) packet of a run.
 #
 # Oracle (written from the statement, CRC16 from rtlmc.usbref):
 #   * every stream.next pulse of a packet carries the next not yet streamed byte after the PID, in order; when the
@@ -47,7 +48,7 @@ BADPID = 0xD3                # DATA0 with one check-nibble bit flipped
 D1, D2, D3 = (0xA5,), (0xA5, 0x00), (0xA5, 0x00, 0x3C)
 
 
-def _family(spec_list):
+def _family(spec_list, emb_level=1):
     """spec_list: [(pid_byte, data alphabet, max payload length)] -> sorted list of packets (byte tuples)"""
     out = set()
     for pidb, dvals, maxlen in spec_list:
@@ -56,6 +57,17 @@ def _family(spec_list):
                 c = U.crc16(pl); lo, hi = c & 0xFF, c >> 8
                 for tr in ((lo, hi), (lo ^ 0x01, hi), (lo, hi ^ 0x80), (hi, lo)):
                     out.add((pidb,) + pl + tr)
+    # packets whose first byte is not a valid data PID but whose later bytes would be a (CRC-valid or corrupted) data packet
+    # if they stood alone: head PID + 0..2 filler bytes + embedded data packet -- must be ignored as a whole
+    heads = sorted({pidb for pidb, _, _ in spec_list if not (U.pid_ok(pidb) and (pidb & 0xF) in U.DATA_PIDS)})
+    d = U.data_packet
+    fills = [(), (0x00,), (0x00, 0xA5)][:emb_level + 1]
+    embs = [d(U.DATA1, ()), d(U.DATA0, (0xA5,)), d(U.DATA0, (0xA5,), corrupt=True), d(U.MDATA, (0x00, 0xA5))][:emb_level + 1]
+    if emb_level == 0: heads = heads[:1]
+    for h in heads:
+        for fill in fills:
+            for emb in embs:
+                out.add((h,) + fill + emb)
     return sorted(out)
 
 
@@ -77,7 +89,7 @@ def _rep():
 
 
 def packets_of(name):
-    return _rep() if name == "rep" else _family(FAMILIES[name])
+    return _rep() if name == "rep" else _family(FAMILIES[name], {"mid": 0, "full": 1, "wide": 3}[name])
 
 
 def configs(tier):
@@ -191,7 +203,8 @@ class ReceiverSpec(Spec):
 
     def goals(self):
         g = ["accepted", "accepted-zlp", "crc-mismatch", "short-data-packet", "bad-pid-ignored", "non-data-ignored", "ready-for-response",
-             "gap-inside-packet", "second-packet-accepted", "accepted-after-rejected", "accepted-after-accepted", "truncated-mid-payload"]
+             "gap-inside-packet", "second-packet-accepted", "accepted-after-rejected", "accepted-after-accepted", "truncated-mid-payload",
+             "embedded-data-packet-ignored"]
         return g
 
     # ------------------------------------------------------------------ one cycle + oracle
@@ -290,6 +303,8 @@ class ReceiverSpec(Spec):
             if kind == "short": self.cover["short-data-packet"] += 1
             elif kind == "badpid": self.cover["bad-pid-ignored"] += 1
             elif kind == "nondata": self.cover["non-data-ignored"] += 1
+            if kind in ("badpid", "nondata") and any(verdict(hist[i:])[0] == "complete" for i in range(1, len(hist) - 2)):
+                self.cover["embedded-data-packet-ignored"] += 1
             if kind == "mismatch" and len(body) >= 3 and self._is_truncation(k, hist): self.cover["truncated-mid-payload"] += 1
             st = [hist, ns, (kind, len(payload), None, 0), 0, False, prev]
             self._cycle(cur, st)                       # first cycle with rx_active low = cycle 0 of the report window
